@@ -177,6 +177,10 @@ class Sub:
     thorough: tuple[int, int] = (16, 1000)
     shrink: bool = True
     shrink_quick: bool = True  # expensive oracles: keep the unshrunk failing input in the quick tier
+    # Engine-level checks: Hypothesis only *generates* the inputs; ``fn`` runs afterwards, outside any Hypothesis test.
+    # (Inside a test, ``hypothesis.settings.default`` is the outer test's profile and Schemathesis merges user settings
+    # relative to that default, so an engine run nested in @given is not the run a user would get.) No shrinking.
+    collect: bool = False
     timeout_quick: int = 240  # wall seconds per shard (hard kill = harness error; soft deadline at 60 %)
     timeout_thorough: int = 2400
     exhaustive: bool = False
@@ -200,6 +204,29 @@ def run_given(ctx: Ctx, sub: Sub, max_examples: int) -> None:
         verbosity=hypothesis.Verbosity.quiet,
     )
     strategy = sub.strategy()
+    if sub.collect:
+        inputs: list = []
+
+        @seed(derive_seed(ctx.seed, "collect"))
+        @settings(st_, phases=[Phase.generate])
+        @given(strategy)
+        def gather(inp):
+            inputs.append(inp)
+
+        try:
+            gather()
+        except hypothesis.errors.FailedHealthCheck as exc:
+            raise HarnessError(f"generator health check failed in {ctx.prop}/{sub.name}: {exc}") from exc
+        for inp in inputs:
+            if ctx.out_of_time():
+                break
+            try:
+                sub.fn(ctx, inp)
+            except Violation as exc:
+                ctx.record_violation(exc, inp)
+                if len(ctx.violations) >= 6:
+                    break
+        return
     for round_ in range(4):
         last: dict = {}
 
